@@ -16,6 +16,8 @@ type Space struct {
 	// Suffix is appended to every token sequence (e.g. the reference
 	// definitions that the tokens' reference links resolve against).
 	Suffix string
+	// Prefix is put in front of every token sequence.
+	Prefix string
 }
 
 func sp(name, doc string, toks ...string) Space { return Space{Name: name, Tokens: toks, Doc: doc} }
@@ -69,6 +71,10 @@ var (
 	XMl = sp("X-ml", "inline constructs spanning lines", "a", " ", "\n", "<b", "c>", "`", "[x](", "/u", ")", " \"t", "u\"", "*")
 	// XDefs: several definitions, duplicates among them, and their uses.
 	XDefs = sp("X-defs", "duplicate and distinct definitions with their uses", "[a]: /1\n", "[a]: /2\n", "[b]: /3\n", "[b]", "[a]", "\n", "x", "> ", "- ")
+	// XRefTail: the same uses at the very end of the input (no final line ending
+	// unless a token supplies it); the definitions come first.
+	XRefTail = Space{Name: "X-reftail", Doc: "reference links and images as the last thing of the input, definitions in front",
+		Tokens: []string{"> ", "- ", "# ", "[a][r]", "![a][r]", "[r]", "[r][]", "![r][]", "\n", "x", " ", "*"}, Prefix: "[r]: /u 't'\n\n"}
 	XEol = sp("X-eol", "CR / CRLF / LF paths",
 		"a", "\r", "\n", " ", "\\", "`", ">", "-", "\t")
 	// Inj: attribute-injection alphabet for C07.
@@ -95,7 +101,7 @@ var (
 )
 
 // All lists every declared space (for the start-up self test).
-var All = []Space{B, I, L, XHead, XRef, XLink, XCode, XHTML, XEmph, XList, XNul, XNulRef, XPhrase, XInfo, XRefHead, XMl, XDefs, XEol, Inj, XEnt, XWs, XNest, XMlRef, Emph5, Emph4, Emph3}
+var All = []Space{B, I, L, XHead, XRef, XLink, XCode, XHTML, XEmph, XList, XNul, XNulRef, XPhrase, XInfo, XRefHead, XRefTail, XMl, XDefs, XEol, Inj, XEnt, XWs, XNest, XMlRef, Emph5, Emph4, Emph3}
 
 // ByName finds a space.
 func ByName(name string) (Space, bool) {
@@ -109,7 +115,7 @@ func ByName(name string) (Space, bool) {
 
 // Without returns a copy of the space without the given tokens.
 func (s Space) Without(drop ...string) Space {
-	out := Space{Name: s.Name, Doc: s.Doc, Suffix: s.Suffix}
+	out := Space{Name: s.Name, Doc: s.Doc, Suffix: s.Suffix, Prefix: s.Prefix}
 	for _, t := range s.Tokens {
 		skip := false
 		for _, d := range drop {
